@@ -1,10 +1,12 @@
 pub mod c01;
+pub mod scenes;
 
 use crate::runner::{Ctx, Outcome};
 
 pub fn dispatch(ctx: &Ctx) -> Option<Outcome> {
     match ctx.prop.as_str() {
         "C01" => Some(c01::run(ctx)),
+        "C02" | "C03" | "C05" | "C06" | "C18" => Some(scenes::run(ctx)),
         _ => None,
     }
 }
